@@ -20,9 +20,11 @@ MANIFEST = {
              'implementation model M for element-meets-column, concatenation, row consolidation satisfies the specification S for every arrangement and '
              'number of cells), C07_iter_flags_spec + C07_iter_object_no_loss (the flag loop of prepare_iter_for_array), C07_iter_object_cond_source and '
              'C07_big_int_threshold_exact (decision and threshold read from the source AST), C07_fill_value_held (regenerated dtype_to_fill_value), '
-             'C07_model_sound, C07_bloc_untouched_dtype (Boolean-target assignment keeps untargeted columns for every layout without mixed blocks). '
+             'C07_model_sound, C07_bloc_untouched_dtype (Boolean-target assignment keeps untargeted columns for every layout without mixed blocks), '
+             'C07_grown_row_no_loss (the row dtype cached by TypeBlocks.append of a table grown block by block is the common dtype or object: no cell is lost). '
              'Correspondence through the public interface: Series/Frame/Index reindex, shift, fillna*, assign (iloc/loc/bloc/column/row), insert, '
-             'from_concat, from_overlay, from_records/from_dict/from_items, row consolidation (iloc[row], values, transpose, iter_array), IndexGO.append/extend '
+             'from_concat, from_overlay, from_records/from_dict/from_items, row consolidation (iloc[row], values, transpose, iter_array), IndexGO.append/extend, '
+             'FrameGO grown column by column (setitem, extend with Series/Frame, extend_items) then every row route (values, iter_array/iter_tuple/iter_series axis 1, iloc[row], transpose, to_pairs(1)) '
              'over a 43-dtype x 57-element grid and every block layout, each case evaluated inside Coq against M (result dtype + which cells survive) and S '
              '(every stored cell is the supplied cell; untouched columns keep their dtype); kernel sweeps of resolve_dtype (47x47), dtype_from_element, '
              'dtype_to_fill_value, dtype_kind_to_na, resolve_dtype_iter/concat_resolved, prepare_iter_for_array.'),
@@ -46,7 +48,7 @@ IMPORTS = 'Require Import SF.Prelude SF.PySlice SF.Dtype SF.PyDyn Gen.Gen_util S
 RULE = ('api strata: (host column from a 43-entry dtype grid: bool, 8 int, 3 float, 2 complex, 2 str widths, 2 bytes widths, 9 datetime64 and 7 timedelta64 units with and '
         'without NaT, object) x (one element from a 57-element grid incl. NaN None NaT 2**53+1 2**63 2**64 long strings tuples NumPy scalars date/datetime/timedelta) '
         'or x (another column of the grid), through 11 Series/Index element operations, 10 Series array operations, 11 Frame element operations and 14 Frame array '
-        'operations, the Frame ones under EVERY block layout (zoo.layouts_for); iterable constructors on all pairs and a lattice of triples of a 37-element grid. '
+        'operations, the Frame ones under EVERY block layout (zoo.layouts_for); FrameGO grown by 4 methods over ordered pairs/triples of the host grid (same-class different width/unit pairs in both orders always included); iterable constructors on all pairs and a lattice of triples of a 37-element grid. '
         'quick tier: a seeded sample of each space plus one fixed witness per known finding; thorough tier: the complete product for every Series/Index operation, the Frame strata on a 21-dtype grid (x 16 elements for the Frame element operations) under every layout (every other layout for the block-insensitive operations). '
         'kernel strata: util.resolve_dtype on all 47x47 ordered dtype pairs against the regenerated Gallina function and the typed model, np.result_type against the '
         'oracle (562 pairs), dtype_from_element, dtype_to_fill_value, dtype_kind_to_na, random dtype lists through resolve_dtype_iter/concat_resolved, random element '
@@ -1140,6 +1142,108 @@ def frame_arr_cases(ctx):
                     yield c
 
 
+
+# ------------------------------------------------------------------------------------------- FrameGO grown column by column
+def p_grown(ds):
+    return f'(PGrown {dt(ds[0])} {lit.lst([dt(d) for d in ds[1:]])})'
+
+
+def grow_setitem(arrs):
+    g = _sf().FrameGO(index=range(len(arrs[0])))
+    for j, a in enumerate(arrs):
+        g[f'c{j}'] = a
+    return g
+
+
+def grow_extend_series(arrs):
+    sf = _sf()
+    g = sf.FrameGO.from_items((('c0', arrs[0]),))
+    for j, a in enumerate(arrs[1:], 1):
+        g.extend(sf.Series(a, name=f'c{j}'))
+    return g
+
+
+def grow_extend_frame(arrs):
+    sf = _sf()
+    g = sf.FrameGO.from_items((('c0', arrs[0]),))
+    g.extend(sf.Frame.from_items([(f'c{j}', a) for j, a in enumerate(arrs[1:], 1)]))
+    return g
+
+
+def grow_extend_items(arrs):
+    g = _sf().FrameGO.from_items((('c0', arrs[0]),))
+    g.extend_items([(f'c{j}', a) for j, a in enumerate(arrs[1:], 1)])
+    return g
+
+
+GROW_METHODS = [grow_setitem, grow_extend_series, grow_extend_frame, grow_extend_items]
+
+
+def _obj_array(xs):
+    o = np.empty(len(xs), dtype=object)
+    for i, x in enumerate(xs):
+        o[i] = x
+    return o
+
+
+def grown_case(ctx, method, hds):
+    '''A FrameGO grown block by block, then every row-consolidation route.  Routes through the cached TypeBlocks._row_dtype
+    (values, iter_array, iter_series, transpose) follow plan PGrown; iloc[row] re-resolves the block dtypes (PIterDt);
+    iter_tuple / to_pairs hand out elements (S only).'''
+    arrs = [host(hd) for hd in hds]
+    if any(excluded_pair(x.dtype.kind, y.dtype.kind) for x in arrs for y in arrs):
+        return None
+    ds = [a.dtype for a in arrs]
+    desc = {'grown_by': method.__name__, 'columns': {f'c{j}': f'{hd} {rp(HOSTS[hd])}' for j, hd in enumerate(hds)}}
+    n = len(arrs[0])
+    row = lambda i: sum((from_arr(a, [i]) for a in arrs), [])
+    try:
+        g = method(arrs)
+        pg, pi = p_grown(ds), p_iterdt(ds)
+        cols = []
+        v = g.values
+        cols += [Col(pg, from_arr(a), v[:, j]) for j, a in enumerate(arrs)]
+        cols += [Col(pg, row(i), r) for i, r in enumerate(g.iter_array(axis=1))]
+        cols += [Col(pg, row(i), sr.values) for i, sr in enumerate(g.iter_series(axis=1)) if i == n - 1]
+        t = g.transpose()
+        cols += [Col(pg, row(i), t[i].values) for i in range(n)]
+        cols += [Col(pi, row(1), g.iloc[1].values)]
+        cols += [Col(None, row(i), _obj_array(tp)) for i, tp in enumerate(g.iter_tuple(axis=1)) if i == 0]
+        cols += [Col(None, row(n - 1), _obj_array([pair[1] for pair in g.to_pairs(1)[n - 1][1]]))]
+        cols += [keep_col(a, g[f'c{j}'].values) for j, a in enumerate(arrs)]
+    except Exception as e:  # noqa
+        cols = e
+    # the cached row dtype is object as soon as two blocks differ: every time column then goes through astype(object)
+    sources = [A(a) for a in arrs] + ([E(None)] if len({str(d) for d in ds}) > 1 else [])
+    return mk_case(ctx, 'api:framego-grown', method.__name__, desc, cols, sources, nontrivial=len({str(d) for d in ds}) > 1)
+
+
+# same scalar class, different width / unit, the narrower or coarser one FIRST (and the reverse)
+GROWN_SAME_CLASS = [('<U1', '<U4'), ('S1', 'S4'), ('M8[Y]/full', 'M8[D]/full'), ('M8[D]/full', 'M8[ns]/full'), ('M8[s]/full', 'M8[us]/full'),
+                    ('m8[D]/full', 'm8[us]/full'), ('m8[D]/full', 'm8[ns]/full'), ('m8[W]', 'm8[s]'), ('int8', 'int64'), ('uint8', 'uint64'),
+                    ('float32', 'float64'), ('float16', 'float32'), ('complex64', 'complex128'), ('int32', 'float64'), ('bool', 'int8')]
+
+
+def grown_cases(ctx):
+    fixed = []
+    for x, y in GROWN_SAME_CLASS:
+        fixed += [(x, y), (y, x), (x, y, x), (x, x, y)]
+    pairs = [(x, y) for x in HOSTS for y in HOSTS]
+    for k, method in enumerate(GROW_METHODS):
+        for hds in fixed:
+            c = grown_case(ctx, method, hds)
+            if c is not None:
+                yield c
+        if ctx.tier == 'thorough':
+            sel = pairs if k == 0 else [p for i, p in enumerate(pairs) if i % 4 == k]
+            sel = sel + [(x, y, z) for (x, y) in ctx.rng.sample(pairs, 150) for z in ctx.rng.sample(list(HOSTS), 1)]
+        else:
+            sel = ctx.rng.sample(pairs, ctx.n(25, 0)) + [(x, y, z) for (x, y) in ctx.rng.sample(pairs, ctx.n(8, 0)) for z in ctx.rng.sample(list(HOSTS), 1)]
+        for hds in sel:
+            c = grown_case(ctx, method, hds)
+            if c is not None:
+                yield c
+
 # ------------------------------------------------------------------------------------------- iterables -> array
 ITER_ELEMS = [True, False, 0, 1, -1, 300, 2**53 + 1, 10**15, 10**15 + 1, 2**63 - 1, 2**63, 2**63 + 1, 2**64, -2**63 - 1,
               1.5, 0.1, float('nan'), 2.0**60, 1 + 2j, 'a', 'abc', '', b'a', b'abc', None, (1, 'a'),
@@ -1392,4 +1496,5 @@ def cases(ctx):
     yield from series_arr_cases(ctx)
     yield from frame_elem_cases(ctx)
     yield from frame_arr_cases(ctx)
+    yield from grown_cases(ctx)
     yield from iter_cases(ctx)
